@@ -363,6 +363,9 @@ class Renderer:
             return "TyRef"
         if role == "module-ref":
             return "fixture_mod"
+        ntt = og.numeric_text_type(nf, self.CE)
+        if ntt in INT_RANGES:
+            tys = ntt
         if tys in INT_RANGES:
             # an integer hole can hold any value of its type: the extremes decide whether the position it is written to is wide
             # enough (rustc rejects an out-of-range literal), so render those rather than a small number
